@@ -3,7 +3,7 @@
    /repo/core/blockchain.go (writeHeadBlock, reorg, SetCanonical, insertChain,
    insertSideChain, recoverAncestors, SetHead, restart); each is closed by [exact]
    of a lemma of Chain/CanonicalProofs.v, CanonicalInv.v or CanonicalWitness.v. *)
-From GV Require Import Lib.Tactics Chain.Tree Chain.Canonical Chain.LookupCache Chain.CanonicalProofs Chain.CanonicalInv Chain.CanonicalTop Chain.CanonicalIndex Chain.CanonicalEvents Chain.CanonicalCache Chain.CanonicalWitness.
+From GV Require Import Lib.Tactics Chain.Tree Chain.Canonical Chain.LookupCache Chain.CanonicalProofs Chain.CanonicalInv Chain.CanonicalTop Chain.CanonicalIndex Chain.CanonicalEvents Chain.CanonicalCache Chain.CanonicalChain Chain.CanonicalState Chain.CanonicalOps Chain.CanonicalWitness.
 Local Open Scope N_scope.
 
 (* The index is parent-linked up to the head, names the head at its height, and the head
@@ -47,6 +47,41 @@ Proof.
   split; [exact HT | exact HK].
 Qed.
 Print Assumptions C38_no_entry_above_head.
+
+(* head_has_state: after every operation of every history of the five operations the state of
+   the head block is available (bc.HasState(CurrentBlock().Root)); the genesis state is never
+   lost, in memory or on disk.  (Stop commits the head state, so NewBlockChain's repair path
+   is not reached in these histories; SetHead lands on a block with state or on the genesis.) *)
+Theorem C38_head_has_state :
+  forall (T : tree) (fuel : nat) (ops : list op),
+    wf_tree T ->
+    let st := run T fuel genesis_db ops in
+    avail st (hd_block st) = true /\ avail st 0 = true /\ disk st 0 = true.
+Proof.
+  intros T fuel ops Hwf st.
+  exact (run_HSt T Hwf fuel ops genesis_db (Inv_genesis T Hwf) (HSt_genesis)).
+Qed.
+Print Assumptions C38_head_has_state.
+
+(* WITHOUT any condition on the heads, for ALL histories of the five operations: the canonical
+   index is exactly the ancestor chain of ONE stored block [top], which is the head header or a
+   descendant of it; nothing is canonical above [top] and every canonical block is stored.  So
+   whatever is canonical above the head header descends from it.  The exact exception to "the
+   chain ends AT the head" is top <> head header: the open finding
+   C38-linked-canon-above-head-header (witness: C38_no_entry_above_head_refuted). *)
+Theorem C38_index_is_one_chain :
+  forall (T : tree) (fuel : nat) (ops : list op),
+    wf_tree T -> (forall g, T 0 = Some g -> T (b_parent g) = None) ->
+    let st := run T fuel genesis_db ops in
+    exists hb top tb, T (hd_header st) = Some hb /\ T top = Some tb /\ b_number hb <= b_number tb /\
+      anc T top (b_number hb) = Some (hd_header st) /\
+      (forall n, n <= b_number tb -> canon st n = anc T top n) /\
+      (forall n, b_number tb < n -> canon st n = None) /\
+      (forall n h, canon st n = Some h -> is_known st h = true).
+Proof.
+  intros T fuel ops Hwf Hgp st. exact (CH_statement T _ (run_CH T Hwf Hgp fuel ops genesis_db (CH_genesis T Hwf Hgp))).
+Qed.
+Print Assumptions C38_index_is_one_chain.
 
 (* Without the heads-together condition the clause is still false after 337872da5f, in
    one remaining shape: SetHead onto a block without state, then re-import of the SAME
@@ -219,6 +254,105 @@ Theorem C38_known_block_events_exact :
 Proof. exact wkb_events. Qed.
 Print Assumptions C38_known_block_events_exact.
 
+(* ---- one statement per OPERATION (concatenated lists of the whole operation) ----
+   An InsertChain performs ONE switch, at its first head change; every later block of the
+   contiguous segment extends the head.  So the concatenated lists are the net change. *)
+
+(* InsertChain(blocks), every block executed at its turn ([all_fresh]): removed = logs of the
+   blocks leaving the canonical chain, added = logs of the blocks entering it (the re-added
+   branch below the first block, then every block of the segment), each once, oldest first;
+   one ChainEvent per block of the segment in order; one ChainHeadEvent, for the last block *)
+Theorem C38_insert_chain_events_exact :
+  forall (T : tree) fuel ids x r st st' evs,
+    step T fuel st (OInsert ids) = (st', evs, None) -> resolve_all T ids = Some (x :: r) ->
+    all_fresh T fuel st true (x :: r) ->
+    exists st1 leaving entering,
+      write_block_with_state st x = Ok st1 /\ switch T st1 x leaving entering /\
+      removed_logs evs = logs_old_first st1 leaving /\
+      added_logs evs = logs_old_first st1 (tl entering) ++ block_logs (x :: r) /\
+      chain_evs evs = map fst (x :: r) /\ head_evs evs = [fst (List.last r x)] /\
+      hd_block st' = fst (List.last r x).
+Proof. exact insert_chain_fresh_events. Qed.
+Print Assumptions C38_insert_chain_events_exact.
+
+(* InsertChain of a segment stored with state, first block not canonical (re-adoption through
+   writeKnownBlock).  Stated exception C38-known-reimport-silent: no ChainEvent and no logs for
+   the blocks of the segment; only the re-added branch below the first block is announced *)
+Theorem C38_insert_chain_known_events_exact :
+  forall (T : tree) fuel x r st st' evs,
+    insert_chain T fuel st true (x :: r) = (st', evs, None) ->
+    all_known T fuel st true (x :: r) -> hdr_ok T x -> contiguous (x :: r) = true ->
+    (match cur_hdr T st with Some c => hnum c | None => 0 end <? hnum x) ||
+       negb (oeqb (canon st (hnum x)) (fst x)) = true ->
+    exists leaving entering, switch T st x leaving entering /\
+      removed_logs evs = logs_old_first st leaving /\
+      added_logs evs = logs_old_first st (tl entering) /\
+      chain_evs evs = [] /\ head_evs evs = [fst (List.last r x)] /\
+      hd_block st' = fst (List.last r x).
+Proof. intros T fuel. exact (insert_chain_known_events T (pruned_case T fuel) fuel). Qed.
+Print Assumptions C38_insert_chain_known_events_exact.
+
+(* the side-chain path (first block's parent stored without state): the operation's events are
+   exactly those of the re-import of [stateless ancestors ++ segment] (rev hashes), which is
+   again one switch + extensions.  Stated exception C38-setcanonical-reemits-logs (insertChain
+   variant): when that list starts with a block that is canonical already, entering = [] and the
+   block's logs are announced again (they are in block_logs but were not removed).
+   (That list is contiguous and made of tree blocks: proved from the walk.) *)
+Theorem C38_side_chain_events_exact :
+  forall (T : tree) fuel x0 l0 st st' evs,
+    insert_chain T fuel st true (x0 :: l0) = (st', evs, None) -> classify st true x0 = CPruned ->
+    Forall (hdr_ok T) (x0 :: l0) ->
+    exists st1 prev y hashes,
+      side_write st (match cur_hdr T st with Some c => hnum c | None => 0 end) (x0 :: l0) None = (st1, prev) /\
+      stateless_walk T fuel st1 prev [] = Some (Some y, hashes) /\
+      match rev hashes with
+      | [] => evs = [] /\ st' = st1
+      | b0 :: br =>
+        all_fresh T fuel st1 true (b0 :: br) ->
+        exists s1 leaving entering,
+          write_block_with_state st1 b0 = Ok s1 /\ switch T s1 b0 leaving entering /\
+          removed_logs evs = logs_old_first s1 leaving /\
+          added_logs evs = logs_old_first s1 (tl entering) ++ block_logs (b0 :: br) /\
+          chain_evs evs = map fst (b0 :: br) /\ head_evs evs = [fst (List.last br b0)] /\
+          hd_block st' = fst (List.last br b0)
+      end.
+Proof. exact side_chain_events'. Qed.
+Print Assumptions C38_side_chain_events_exact.
+
+(* InsertBlockWithoutSetHead of a block whose parent has state: stored and executed, nothing
+   announced, index and heads untouched *)
+Theorem C38_insert_nohead_events_exact :
+  forall (T : tree) fuel h b st st' evs,
+    step T fuel st (OInsertNoHead h) = (st', evs, None) -> T h = Some b ->
+    classify st true (h, b) = CFresh -> evs = [] /\ same_index st st'.
+Proof. exact insert_nohead_events. Qed.
+Print Assumptions C38_insert_nohead_events_exact.
+
+(* SetCanonical as a whole operation, head state present or not: if it is missing,
+   recoverAncestors runs first (events ev1 - none, and index/heads untouched, when every
+   recovered block is executed at its turn: C38_recover_ancestors_silent), then the switch is
+   announced as in C38_set_canonical_events_exact *)
+Theorem C38_set_canonical_op_events_exact :
+  forall (T : tree) fuel st x st' evs,
+    set_canonical T fuel st x = (st', evs, None) -> hdr_ok T x ->
+    exists st1 ev1,
+      ((avail st (fst x) = true /\ st1 = st /\ ev1 = []) \/
+       (avail st (fst x) = false /\ recover_ancestors T fuel st x = (st1, ev1, None))) /\
+      exists leaving entering, switch T st1 x leaving entering /\
+        removed_logs evs = removed_logs ev1 ++ logs_old_first st1 leaving /\
+        added_logs evs = added_logs ev1 ++ logs_old_first st1 (tl entering) ++ logs_of st1 x /\
+        chain_evs evs = chain_evs ev1 ++ [fst x] /\ head_evs evs = head_evs ev1 ++ [fst x].
+Proof. exact set_canonical_op_events. Qed.
+Print Assumptions C38_set_canonical_op_events_exact.
+
+Theorem C38_recover_ancestors_silent :
+  forall (T : tree) fuel st x st1 ev1 y hashes,
+    recover_ancestors T fuel st x = (st1, ev1, None) ->
+    stateless_walk T fuel st (Some x) [] = Some (Some y, hashes) ->
+    all_fresh_nh T fuel st (rev hashes) -> ev1 = [] /\ same_index st st1.
+Proof. exact recover_silent. Qed.
+Print Assumptions C38_recover_ancestors_silent.
+
 (* Stated exception of the event statements: SetHead announces the new head only; the logs
    of the blocks it drops are never removed (C38-sethead-no-removed-logs) *)
 Theorem C38_set_head_no_removed_logs_refuted :
@@ -262,8 +396,9 @@ Theorem C38_lookup_cache_repaired : cached_vs_index false stale_ops 7 = (None, N
 Proof. exact lookup_cache_repaired. Qed.
 Print Assumptions C38_lookup_cache_repaired.
 
-Example C38_nonvacuous : tx_once_per_branch WT /\ (forall g, WT 0 = Some g -> forall tx, ~ In tx (b_txs g)) /\
+Example C38_nonvacuous : (exists l, resolve_all WT [1;2;3] = Some l /\ all_fresh WT wfuel genesis_db true l) /\
+  tx_once_per_branch WT /\ (forall g, WT 0 = Some g -> forall tx, ~ In tx (b_txs g)) /\
   wf_tree WT /\ nonvacuous_check = true /\
   (forall g, WT 0 = Some g -> WT (b_parent g) = None) /\
   heads_equal_along WT wfuel genesis_db guarded_ops /\ hd_header (wrun guarded_ops) = 3.
-Proof. split; [exact WT_once|]. split; [exact WT_genesis_notx | exact nonvacuous]. Qed.
+Proof. split; [exact fresh_segment_ok|]. split; [exact WT_once|]. split; [exact WT_genesis_notx | exact nonvacuous]. Qed.
